@@ -12,6 +12,8 @@ A template is ordinary text (Rust) with directive blocks:
   //@@ after_all: <tokens> ==> <text> (text inserted after EVERY occurrence, zero or more: ghost arguments)
   //@@ before: <anchor tokens>
   //@@ before_stmt: <anchor tokens>   (lines inserted before the statement that contains the anchor)
+  //@@ for_desugar: for <pat> in      (rewrites that for-loop into `let mut vx_it = (..).into_iter(); while let Some(pat) = vx_it.next()`)
+  //@@ elide_arg: <callee>( ==> <expr>  (the argument list of each such call is replaced by <expr>; a DROP, recorded)
   //@@ closure_spec: <tokens ending in the closure's |params|> ==> -> (r: T) ensures ...
                                       (wraps the closure body in braces and gives it a contract)
   //@@ end
@@ -102,6 +104,34 @@ def _apply_common(piece, blk):
         hits, n = piece.find(anchor, unique=False)
         for h in hits:
             piece.insert_after(h + n - 1, txt, 'ghost_arg')
+    for anchor in blk.get('for_desugar', []):
+        # `for PAT in EXPR {`  ->  `let mut vx_it = (EXPR).into_iter(); while let Some(PAT) = vx_it.next() {`
+        # (Rust's own definition of `for`; Verus supports continue only in while loops). anchor = `for PAT in`
+        hits, n = piece.find(anchor, unique=False, what='for_desugar')
+        if len(hits) != 1:
+            piece.counts['hint_skipped'] = piece.counts.get('hint_skipped', 0) + 1
+            continue
+        s_ = piece.src.s
+        h = hits[0]
+        pat = ' '.join(t.text for t in s_[h + 1:h + n - 1])
+        k = h + n
+        depth = 0
+        while not (s_[k].text == '{' and depth == 0):
+            if s_[k].text in rtok.OPEN: depth += 1
+            elif s_[k].text in rtok.CLOSE: depth -= 1
+            k += 1
+        piece.replace_tokens(h, h + n - 1, 'let mut vx_it = (', 'for_desugar')
+        piece.insert_before(k, f').into_iter(); while let Some({pat}) = vx_it.next() ', 'for_desugar')
+        piece.counts['for_desugar'] -= 1
+    for anchor, repl in blk.get('elides', []):
+        # replace the whole argument list of every call `<anchor>` (anchor ends with `(`) by `repl`:
+        # the dropped argument (a closure / async block) is verified separately as a slice
+        hits, n = piece.find(anchor, unique=False, what='elide_arg')
+        for h in hits:
+            opener = h + n - 1
+            closer = rtok.match_close(piece.src.s, opener)
+            if closer > opener + 1:
+                piece.replace_tokens(opener + 1, closer - 1, repl, 'elide_arg:' + anchor)
     for anchor, spec in blk.get('closure_specs', []):
         # anchor = `<callee>(`; if the first argument of that call is a closure `|p, ..| body` (or
         # `move |..|`), its body is wrapped in braces and given the contract `spec`, in which $1 is
@@ -369,6 +399,11 @@ def generate(repo, template_text, variables=None):
             elif d in ('spec', 'prologue', 'epilogue', 'header', 'const_ensures'):
                 blk[d] = []
                 section = blk[d]
+            elif d == 'for_desugar':
+                blk.setdefault('for_desugar', []).append(rest)
+            elif d == 'elide_arg':
+                frm, to = rest.split('==>')
+                blk.setdefault('elides', []).append((frm.strip(), to.strip()))
             elif d == 'closure_spec':
                 frm, to = rest.split('==>')
                 blk.setdefault('closure_specs', []).append((frm.strip(), to.strip()))
